@@ -10,7 +10,7 @@ from .. import core, mcprog, mcrun, peek, refsem, syncgen
 class C40(core.Prop):
     id = "C40"
     drivers = ["s4u_interp", "mc_peek"]
-    ready = False
+    ready = True
     max_workers = 6
     sizes = {"quick": 30, "thorough": 800}
     technique = ("property-based differential testing (Hypothesis): the complete executions explored by simgrid-mc with reduction odpor vs "
@@ -210,8 +210,8 @@ def _sc(objects, actors):
 
 FIXED = [
     {"program": _sc({"mutex": [{"recursive": False}]}, [[["lock", 0], ["unlock", 0]], [["lock", 0], ["unlock", 0]]])},
-    {"program": _sc({"mutex": [{"recursive": False}], "sem": [1]},
-                    [[["lock", 0], ["unlock", 0], ["acquire", 0], ["release", 0]], [["acquire", 0], ["release", 0]], [["lock", 0], ["unlock", 0]]])},
+    {"program": _sc({"mutex": [{"recursive": False}]}, [[["try_lock", 0], ["unlock_if", 0, 0]], [["try_lock", 0], ["unlock_if", 0, 0]],
+                                                        [["lock", 0], ["unlock", 0]]])},
 ]
 
 PROP = C40()
